@@ -93,6 +93,12 @@ CHECKS = {
         "technique": SMT + "; symbolic operation arguments through the real mutators, equality with a freshly built simulation",
         "design_ref": "DESIGN.md section 5 (C14)",
     },
+    "C15": {
+        "text": "Bounded symbolic check: real Elastic (static, Newmark) and Thermal (parabolic) simulations execute operation sequences over {solve, Save_Iter, folder -> memory / disk A / disk B, Set_Iter(i), Get_results(i), Result(name, iter=i), mesh replacement, in-place motion, Save + Load_Simu}; every Solve() runs through the ideal-solver stub with FRESH symbolic nodal loads, so each state is a distinct vector of linear forms. The check snapshots fields, mesh and results at every Save_Iter; after EVERY operation it decides by exact normalisation (identity of linear forms = equality for all load values) that all stored iterations still equal their snapshots, reads leave the live state unchanged, Set_Iter restores fields and mesh, Result(iter=i) gives the value of the time, and a loaded simulation reproduces history and results. Sequences: exhaustive over a 12-letter alphabet up to length 3 (quick) / 4 (thorough) after an initial solve, plus seed-drawn histories of length 5-9.",
+        "note": "Trusted: Sym linear-form arithmetic, the ideal-solver stub, python pickle of object arrays. Outside: phase-field history field, inelastic internal variables, hyperelastic simulations (iterative solves); user code mutating returned arrays. Known findings: iterations saved before an in-place mesh motion come back on the moved mesh; Result(name, iter=i) leaves the live state at iteration i.",
+        "technique": SMT + "; identities of symbolic linear forms over exhaustive bounded operation sequences",
+        "design_ref": "DESIGN.md section 5 (C15)",
+    },
 }
 
 NOT_APPLICABLE = {
